@@ -231,6 +231,15 @@ func vfRunTransfer(t *testing.T, spec *vfSpec, res *vfRes, o vfXferOpts) *vfXfer
 			time.Sleep(o.extraSettle)
 		}
 		sim.quiesce()
+		// Even if the run did not drain: a side whose writers returned and which has nothing pending or in flight
+		// has had everything acknowledged (or abandoned), so a reliable message of it that was not read is lost,
+		// not late.
+		var allAcked [2]bool
+		idleAtEnd := w.readersIdle()
+		for side := 0; side < 2; side++ {
+			sn := sim.snap(side)
+			allAcked[side] = writersOK && sn.InflightN == 0 && sn.PendingN == 0 && sn.State == established && w.readersIdle()
+		}
 		vfFinalAccounting(sim, w, out.drained)
 		if o.beforeTeardown != nil {
 			o.beforeTeardown(sim, w)
@@ -244,10 +253,13 @@ func vfRunTransfer(t *testing.T, spec *vfSpec, res *vfRes, o vfXferOpts) *vfXfer
 			if r.cfg.RelType != ReliabilityTypeReliable || r.cfg.Unordered {
 				prop = "C06"
 			}
-			st := vfCheckDelivery(res, prop, r, out.drained)
+			st := vfCheckDelivery(res, prop, r, out.drained || (allAcked[r.wside] && !o.noDrainCheck))
 			out.stats = append(out.stats, st)
 			res.count("msgs_written", int64(st.Accepted))
 			res.count("msgs_delivered", int64(st.Delivered))
+		}
+		if idleAtEnd && out.mon != nil {
+			vfCheckAckedDelivered(sim, w, out.mon)
 		}
 		vfCheckLogLines(sim)
 		if o.afterMonitors != nil {
@@ -257,6 +269,63 @@ func vfRunTransfer(t *testing.T, spec *vfSpec, res *vfRes, o vfXferOpts) *vfXfer
 	})
 
 	return out
+}
+
+// vfCheckAckedDelivered: what the receiver acknowledged cumulatively it has received completely and in stream
+// order (TSNs follow the writing order within a stream), so with idle readers at the final quiescent point
+// every message of a reliable stream whose last fragment lies at or below the highest cumulative TSN the
+// receiver ever wrote must have been handed to the reader. Counting is enough: messages are delivered whole.
+func vfCheckAckedDelivered(sim *vfSim, w *vfWork, mo *vfMonOut) {
+	runs := w.allRuns()
+	for _, r := range runs {
+		if r.cfg.RelType != ReliabilityTypeReliable {
+			continue
+		}
+		shared := false
+		for _, o := range runs {
+			if o != r && o.cfg.SID == r.cfg.SID && o.wside == r.wside {
+				shared = true // several incarnations of one identifier share the wire numbering
+			}
+		}
+		sh := mo.sh[r.wside]
+		if shared || sh == nil || !sh.haveInit {
+			continue
+		}
+		// highest cumulative TSN written by the receiving side
+		have := false
+		var cum uint32
+		for _, e := range sim.net.events() {
+			if e.Kind != vfWrWrite || e.Side != 1-r.wside || e.Pkt == nil {
+				continue
+			}
+			for i := range e.Pkt.Chunks {
+				if c := &e.Pkt.Chunks[i]; c.Type == vfCtSack && (!have || sna32GT(c.CumTSN, cum)) {
+					cum, have = c.CumTSN, true
+				}
+			}
+		}
+		if !have {
+			continue
+		}
+		acked := 0
+		for tsn, ti := range sh.tx {
+			if ti.SID == r.cfg.SID && ti.E && sna32LTE(tsn, cum) && sna32GTE(tsn, sh.initTSN) {
+				acked++
+			}
+		}
+		r.mu.Lock()
+		delivered := 0
+		for _, rd := range r.reads {
+			if rd.Err == nil {
+				delivered++
+			}
+		}
+		r.mu.Unlock()
+		sim.res.count("c01_acked_delivered_checked", 1)
+		if acked > delivered {
+			sim.res.violate("C01", "deliver/acked-not-delivered", "dir%d/sid%d: the receiver acknowledged cumulatively (TSN %d) the last fragment of %d messages of this reliable stream, but with all readers idle only %d were ever handed to the reader: acknowledged data was lost inside the receiver", r.cfg.Dir, r.cfg.SID, cum, acked, delivered)
+		}
+	}
 }
 
 // vfFinalAccounting: at the final quiescent point of a drained run every
